@@ -43,7 +43,7 @@ let t_handle (p : string) : string =
   let body = String.sub p 2 (String.length p - 2) in
   let ops = String.split_on_char ';' body in
   let st = ref init in
-  let trs = ref [] and sts = ref [] in
+  let trs = ref [] and sts = ref [] and rvs = ref [] in
   let oof = ref false in
   let nfire = ref 0 and ncancel = ref 0 and ndrop = ref 0 and nself = ref 0 and reuse = ref false in
   let seen_ids = Hashtbl.create 16 in
@@ -82,14 +82,16 @@ let t_handle (p : string) : string =
         | _ :: r -> scan cur r in
       scan None newl;
       trs := String.concat "," (List.filter_map t_entry_s newl) :: !trs;
-      sts := t_state_s !st newl !nx :: !sts
+      sts := t_state_s !st newl !nx :: !sts;
+      rvs := (if o.[0] = 'x' then string_of_n !nx else "-") :: !rvs
     end) ops;
   if !oof then "tr=OutOfFuel;class=T:oof" else
   let cls = Printf.sprintf "T:%s%s%s%s%s"
       (if !nfire = 0 then "nofire" else if !nfire < 4 then "fire" else "manyfire")
       (if !ncancel > 0 then "+cancel" else "") (if !nself > 0 then "+selfcancel" else "")
       (if !ndrop > 0 then "+drop" else "") (if !reuse then "+reuse" else "") in
-  "tr=" ^ String.concat "/" (List.rev !trs) ^ ";st=" ^ String.concat "/" (List.rev !sts) ^ ";class=" ^ cls
+  "tr=" ^ String.concat "/" (List.rev !trs) ^ ";rv=" ^ String.concat "/" (List.rev !rvs) ^
+  ";st=" ^ String.concat "/" (List.rev !sts) ^ ";class=" ^ cls ^ (if !nfire > 16 then "+many" else "")
 
 (* C16 part (b) model driver.  payload: "P <class> <desc>... / <op>..."  (see prop.py) *)
 let p_parse_act (t : string) : p_act =
@@ -182,40 +184,46 @@ let p_handle (p : string) : string =
     Buffer.contents b
   | _ -> "bad-payload"
 
-(* SelectServer-level registration: "S op;..."; one RunOnce = ExecuteTimeouts before the wait, and twice after *)
-let s_handle (p : string) : string =
-  let body = String.sub p 2 (String.length p - 2) in
-  let ops = String.split_on_char ';' body in
+(* SelectServer-level registration: "S op;..."; x / y<us> = one idle RunOnce with poll interval 0 / us:
+   Model.poll_once (timers, sleep on the clock - truncated to ms on epoll -, fresh clock read, timers) *)
+let s_run (epoll : bool) (ops : string list) : string * bool * int =
   let st = ref init in
   let trs = ref [] in
   let big = ref false and fired = ref 0 in
-  let yes = List.init 40 (fun _ -> { acts = []; sret = true }) in
+  let yes = List.init 200 (fun _ -> { acts = []; sret = true }) in
   List.iter (fun o ->
     if o <> "" then begin
       let rest = String.sub o 1 (String.length o - 1) in
       let before = List.length !st.log in
       (match o.[0] with
        | 'm' | 'i' -> (match String.split_on_char ',' rest with
-           | [rep; v] ->
+           | rep :: v :: more ->
              let v = n_of_string v in
+             let count = match more with [k] -> ios k | _ -> 1 in
              let iv = if o.[0] = 'm' then ms_to_us v else v in
              (if int_of_n (fst (N.div_eucl iv (n_of_int 1000000))) > 4294 then big := true);
-             st := do_reg t_alloc !st (rep = "1") iv N0
+             for _ = 1 to count do st := do_reg t_alloc !st (rep = "1") iv N0 done
            | _ -> failwith "bad reg")
        | 'a' -> st := do_advance !st (n_of_string rest)
-       | 'x' ->
-         for _ = 1 to 3 do
-           (match do_exec t_alloc t_pick !st yes with Some (s', _) -> st := s' | None -> failwith "oof")
-         done
+       | 'x' | 'y' ->
+         let b = if o.[0] = 'x' then N0 else n_of_string rest in
+         (match poll_once t_alloc t_pick epoll !st b yes yes with Some s' -> st := s' | None -> failwith "oof")
        | _ -> failwith "bad op");
       let newl = List.rev (t_take_new !st.log (List.length !st.log - before)) in
       let fs = List.filter_map (fun e -> match e with
           | LFire (ev, now) -> incr fired; Some ("F" ^ string_of_n ev.eser ^ "@" ^ string_of_n now) | _ -> None) newl in
       trs := String.concat "," fs :: !trs
     end) ops;
-  let tr = String.concat "/" (List.rev !trs) in
-  Printf.sprintf "se=%s;ss=%s;class=S:%s%s" tr tr (if !big then "over32bit-us" else "small")
-    (if !fired > 0 then "+fire" else "")
+  (String.concat "/" (List.rev !trs), !big, !fired)
+let s_handle (p : string) : string =
+  let body = String.sub p 2 (String.length p - 2) in
+  let ops = String.split_on_char ';' body in
+  let (te, big, fired) = s_run true ops in
+  let (ts, _, _) = s_run false ops in
+  let sleeps = List.exists (fun o -> o <> "" && o.[0] = 'y') ops in
+  Printf.sprintf "se=%s;ss=%s;early=0;class=S:%s%s%s%s%s" te ts (if big then "over32bit-us" else "small")
+    (if fired > 0 then "+fire" else "") (if fired > 32 then "+many" else "") (if sleeps then "+sleep" else "")
+    (if te <> ts then "+ms-truncation" else "")
 let handle (p : string) : string =
   if String.length p >= 2 && p.[0] = 'T' then t_handle p
   else if String.length p >= 2 && p.[0] = 'S' then s_handle p
